@@ -556,6 +556,11 @@ func (r *srcRun) judge(src, prop string, res reflect.Value, err error, garbage b
 				got = got.Elem()
 			}
 			if !reflect.DeepEqual(got.Interface(), want.Interface()) {
+				if src == "cue" && l.Kind == "uptr" {
+					// finding D24 (the Cue library has no case for uintptr): a disagreement between decoders, not a mangler or alias matter
+					r.add("C13", src, "leaf %d (%s): got %v, supplied %v", l.ID, l.Kind, got.Interface(), want.Interface())
+					continue
+				}
 				r.add(p, src, "leaf %d (%s): got %v, supplied %v", l.ID, l.Kind, got.Interface(), want.Interface())
 				r.add("C10", src, "leaf %d (%s): value changed by the round trip: %v vs %v", l.ID, l.Kind, got.Interface(), want.Interface())
 			}
